@@ -72,6 +72,18 @@ class Catalogue:
             run.bad(rule, "model-mismatch/%s" % name, where(prog.bodies[p]) if p in prog.bodies else self.file,
                     "the catalogue model of %s no longer matches the code: %s" % (name, msg))
 
+        from .fold import Folder
+        folder = Folder(prog)
+
+        def is_c(e, val):
+            """e is the constant val, literally or after folding argument-free functions (Cell::height() == 2 ...)"""
+            if is_const(e, val):
+                return True
+            try:
+                return float(folder.eval(strip(e), ())) == float(val)
+            except Exception:
+                return False
+
         def one(sfx):
             ps = [p for p in prog.bodies if p.endswith(sfx)]
             return ps[0] if len(ps) == 1 else None
@@ -80,7 +92,7 @@ class Catalogue:
         w = one("circle_map::CircleArt::width")
         if p and w:
             r = [strip(x) for x in Expr(prog, p).returns()]
-            ok = len(r) == 1 and r[0][0] == "bin" and r[0][1] == "Div" and strip(r[0][2])[0] == "call" and strip(r[0][2])[1] == w and is_const(r[0][3], 2.0)
+            ok = len(r) == 1 and r[0][0] == "bin" and r[0][1] == "Div" and strip(r[0][2])[0] == "call" and strip(r[0][2])[1] == w and is_c(r[0][3], 2.0)
             run.ok(rule, "model conformance: CircleArt::radius = width() / 2", where(prog.bodies[p])) if ok else bad("CircleArt::radius", p, expr_str(r[0]) if r else "?")
         else:
             bad("CircleArt::radius", None, "function not found")
@@ -95,7 +107,7 @@ class Catalogue:
                 tx = [strip(t) for t in terms(cx)]
                 okx = len(tx) == 2 and {t[1] for t in tx if t[0] == "call"} == {inc, rad}
                 fy = [strip(f) for f in factors(cy)]
-                oky = len(fy) == 2 and any(is_const(f, 2.0) for f in fy) and any(f == ("param", 1, ("offset_center_y",)) for f in fy)
+                oky = len(fy) == 2 and any(is_c(f, 2.0) for f in fy) and any(f == ("param", 1, ("offset_center_y",)) for f in fy)
                 ok = okx and oky
             run.ok(rule, "model conformance: CircleArt::center = (radius + edge_increment, offset_center_y * 2)", where(prog.bodies[p])) if ok else bad("CircleArt::center", p, expr_str(r[0])[:160] if r else "?")
         else:
